@@ -9,7 +9,7 @@ RULE = ("scenario families ['churn', 'mix'] (see vlib/loopgen.py) rotating over 
         "replayed through the Lean machine (every library record must be predicted) and through the Lean monitor(s) ['C02']; sanitizer "
         "classes counted as violations of this property: []. non-trivial = a handler was cleared or set between two waits while the descriptor stayed registered; distinct by hash of the log")
 
-RETRACT_RULE = ("; plus the ENUMERATED family 'retract' (264 scenarios per run, not sampled): 4 methods x {descriptor, cross-thread iv_event, iv_event_raw} "
+RETRACT_RULE = ("; plus the ENUMERATED family 'retract' (416 scenarios per run, not sampled: 264 same-iteration retractions, 24 failed-then-real registrations, 128 failed registration followed by release of the object and table compaction): 4 methods x {descriptor, cross-thread iv_event, iv_event_raw} "
                 "handler dispatched first x 10 manipulations of another source collected in the same iteration (handlers cleared then unregistered, "
                 "freed, recycled, same struct re-registered, bands dropped and re-added) x both arrival orders, and failed registration attempts "
                 "followed by a successful registration of the same, not re-initialised, struct")
@@ -20,8 +20,8 @@ def nontrivial(log):
 
 
 def run(tier, seed, proof):
-    return l1.run_property(PROP, tier, seed, proof, FAMILIES, MONS, SANS, nontrivial, RULE + RETRACT_RULE,
-                           extra_cases=lambda tier, seed: loopgen.retract_cases(seed))
+    return l1.run_property(PROP, tier, seed, proof, FAMILIES, MONS, SANS, nontrivial, RULE + RETRACT_RULE + loopgen.ENUM_RULE,
+                           extra_cases=lambda tier, seed: loopgen.retract_cases(seed) + loopgen.erronly_cases() + loopgen.quit_cases())
 
 
 def search(tier, seed, proof):
